@@ -3,5 +3,5 @@ NEXT Next
 CONSTANTS
   Wide = FALSE
   BatchSize = 16
-  NInst = 30
+  NInst = 24
   StrLen = 3
